@@ -59,7 +59,10 @@ def _hist_text(names, hist, split):
         lines.append("P%d: %s" % (split - 1, probe))
     for i in range(split, len(hist)):
         op, k, v = hist[i]
-        lines.append("#define %s %d" % (names[k], v) if op == "def" else "#undef %s" % names[k])
+        if op == "fill":      # a block of k filler definitions: pushes the real macro table over its growth water-mark
+            lines += ["#define VPFILL%d_%d %d" % (i, j, j) for j in range(k)]
+        else:
+            lines.append("#define %s %d" % (names[k], v) if op == "def" else "#undef %s" % names[k])
         lines.append("P%d: %s" % (i, probe))
     return opts, "\n".join(lines) + "\n"
 
@@ -67,6 +70,8 @@ def _hist_text(names, hist, split):
 def _expected(names, hist, upto):
     d = {}
     for op, k, v in hist[:upto + 1]:
+        if op == "fill":
+            continue
         if op == "def":
             d[k] = v
         else:
@@ -78,6 +83,12 @@ def splits(n):
     return [0, n, n // 2]
 
 
+def splits_for(hist):
+    if any(op == "fill" for op, k, v in hist):
+        return [0]           # filler blocks are rendered as in-file lines only
+    return splits(len(hist))
+
+
 def _cli_batch(args):
     chibicc, wd, names, hists = args
     os.makedirs(wd, exist_ok=True)
@@ -86,7 +97,7 @@ def _cli_batch(args):
     src = os.path.join(wd, "h.c")
     for hist in hists:
         L = len(hist)
-        for split in splits(L):
+        for split in splits_for(hist):
             opts, text = _hist_text(names, hist, split)
             with open(src, "w") as f:
                 f.write(text)
@@ -179,21 +190,30 @@ def run(ctx):
     hists = []
     for ops, L in plan:
         hists += list(itertools.product(ops, repeat=L))
+    # growth of the real macro table in the middle of a history: a filler block at every position of every short history
+    nfill = 60
+    Lg = 3 if ctx.tier == "quick" else 4
+    grow = []
+    for h0 in itertools.product(opsA, repeat=Lg):
+        for pos in range(Lg + 1):
+            grow.append(tuple(h0[:pos]) + (("fill", nfill, 0),) + tuple(h0[pos:]))
+    ngrow = len(grow)
     L = plan[0][1]
+    hists += grow
     batches = core.chunks(hists, max(1, len(hists) // (core.NPROC * 8) + 1))
     args = [(ctx.chibicc, os.path.join(ctx.work, "cli%d" % i), names, b) for i, b in enumerate(batches)]
     res = core.pmap(_cli_batch, args)
     nruns = sum(r[0] for r in res)
     for n, bad in res:
         for problem, hist, split, opts, text, tail in bad:
-            hs = " ".join("%s(%s%s)" % (op, names[k], ",%d" % v if op == "def" else "") for op, k, v in hist)
+            hs = " ".join("fill(%d)" % k if op == "fill" else "%s(%s%s)" % (op, names[k], ",%d" % v if op == "def" else "") for op, k, v in hist)
             ctx.violation("C17|macro-cli|%s" % problem,
                           "macro table history [%s] split=%d -> %s" % (hs, split, problem),
                           files={"h.c": text, "opts.txt": " ".join(opts) + "\n",
                                  "expected.txt": "\n".join("P%d: %s" % (i, _expected(names, hist, i)) for i in range(len(hist))) + "\n"},
                           replay=("$CHIBICC -cc1 -E $(cat opts.txt) -cc1-input h.c h.c > got.txt 2>&1 || exit 1\n"
                                   "grep '^P' got.txt | while read l; do grep -qxF \"$l\" expected.txt || exit 1; done || exit 1\nexit 0"))
-    ctx.cover(traces_validated_against_impl=nruns, cli_histories=len(hists), cli_history_plan=[[len(o), l] for o, l in plan])
+    ctx.cover(traces_validated_against_impl=nruns, cli_histories=len(hists), cli_histories_with_table_growth=ngrow, cli_history_plan=[[len(o), l] for o, l in plan])
     ctx.sample({"level": 2, "names": names, "history": [list(x) for x in hists[len(hists) // 3]],
                 "rendering": _hist_text(names, hists[len(hists) // 3], L // 2)}, limit=6)
     ctx.assume("hash geometry (capacity, hash function) is read from the tree's own hashmap.c/preprocess.c; "
